@@ -365,6 +365,16 @@ pub fn expect(cap: usize, len: usize, act: &Act) -> Exp {
             }
             return unchanged(trace);
         }
+        IntoIterClone(s) => {
+            let rest: Vec<Tag> = script_trace(&pre, s, &mut trace).into_iter().collect();
+            trace.push(Obs::Tags(rest.iter().map(|t| t_c(*t)).collect()));
+            trace.push(Obs::Tags(rest));
+            return Exp {
+                panics: false,
+                trace,
+                post: Post::Consumed,
+            };
+        }
         DropBuf => {
             trace.push(Obs::Unit);
             return Exp {
